@@ -217,6 +217,15 @@ func init() {
 			return map[string]interface{}{"Elys": "100", "Usdc": "10", "EdenPerYear": "9999999999999"}, nil
 		},
 	})
+	// C18: the end-block fee conversion fails the block while a price is missing (fixed scenario)
+	registerReplay(&Replayer{
+		Obligation: "x/masterchef/keeper.(Keeper).ConvertGasFeesToUsdc/ensures:C18/fee-conversion-does-not-fail-the-block",
+		Template:   "C18_fee_conversion_during_price_outage.go.tmpl", PkgDir: "x/masterchef/keeper", TestName: "TestKeeperSuite/TestVerifReplayC18FeeConversionDuringPriceOutage",
+		Marker: "C18 violated on the real code",
+		Data: func(m map[string]string, goal string) (map[string]interface{}, error) {
+			return map[string]interface{}{"Fee": "1000"}, nil
+		},
+	})
 	// C15: the burner burns any denom with bank metadata found at the zero address
 	registerReplay(&Replayer{
 		Obligation: "x/burner/keeper.(Keeper).burnTokensForDenom/burns:C15/burns-only-the-native-token",
